@@ -79,21 +79,24 @@ claim("C15",
       "processes (fresh hash seeds) and with the options in two other orders; all outputs must be byte-identical.",
       "Lean 4 proof of order independence (total order + permutation) + multi-process re-generation", "DESIGN.md §8 C15")
 claim("C16",
-      "Lean theorems (Props/C16.lean): the acceptance of a file entry is proved equal, for every nesting depth, to the declarative "
-      "required/optional/forbidden table of kind x field (file_ok, files_ok, pathKind_ok), likewise condition lists, gp_info, vram classes "
-      "(exactly one placement), symbol assignments, required symbols, asserts; unknown_key_rejected for all nine record levels. The same "
-      "declarative predicate validDoc (also covering segments, settings and the document record, whose equivalence proofs are not finished — "
-      "accept_iff_valid_statement) is the run-time oracle: implementation accept/reject is compared with it on the presence lattices in full "
-      "(4608 file entries, 2^4 address subsets, 2^3 class placements, unknown key x 9 levels, every field x {absent,null,value}, empty condition "
-      "lists x 6 record kinds) and on mutated random documents. The bytes -> value tree step is serde_yaml's (not modelled).",
-      "Lean 4 proof of accept = declarative table (records proved: files, conditions, gp_info, classes, top-level entries) + exhaustive lattices against the oracle",
+      "Lean theorem accept_iff_valid (Props/C16.lean): for every canonical value tree, parsing succeeds iff the tree is well typed for the nine "
+      "record levels and satisfies the declarative predicate validDoc — required/optional/forbidden table of kind x field for file entries at "
+      "every nesting depth (file_ok, files_ok), condition lists, gp_info, segments (segment_ok: name, non-empty files, at most one address field, "
+      "non-null fields, gp_info section rules, acyclic sub-groups over the resolved lists), vram classes (exactly one placement), settings "
+      "(settings_ok: d_path needs target_path, null only on the nullable six), top-level lists and a non-empty segments list (document_ok); "
+      "unknown_key_rejected for all nine record levels. The same validDoc is the run-time oracle: implementation accept/reject is compared with "
+      "it on the presence lattices in full (4608 file entries, 2^4 address subsets, 2^3 class placements, unknown key x 9 levels, every field x "
+      "{absent,null,value}, empty condition lists x 6 record kinds) and on mutated random documents. The bytes -> value tree step is "
+      "serde_yaml's (not modelled).",
+      "Lean 4 proof of accept = declarative validity predicate for the whole document + exhaustive lattices against the same predicate",
       "DESIGN.md §8 C16")
 
 claim("C19",
       "The model consists of total Lean functions (termination checked by Lean) whose only non-value outcome is the exhausted recursion bound "
       "of the emitter. Lean theorems (Props/C19.lean): single_segment_count, cycle_is_reported, excluded_returns, cyclic_subgroups_rejected — the "
-      "former panic / stack-overflow sites are error values; the statement that the bound is never exhausted (never_diverges_statement) is not yet "
-      "proved, so a diverge outcome of the model on any run-time case is reported. Run-time part (sampled, cannot be a theorem): valid, "
+      "former panic / stack-overflow sites are error values; never_diverges proves, for every document, option map, mode and class list, that "
+      "the bound is never exhausted (chain invariant: the parents chain is duplicate-free inside the finite set of sub-group values, so "
+      "depth x (values + 2) + 1 steps suffice) — generation always returns a script or one of the enumerated errors. Run-time part (sampled, cannot be a theorem): valid, "
       "structurally mutated and raw-byte inputs (truncations, byte flips, deep nesting, alias bombs, huge numbers, non-ASCII names, cyclic tables) "
       "through the real library under catch_unwind in a child process with address-space limit and timeout — outcome must be a value; successful "
       "generations with identifier-safe names are handed to GNU ld -m elf_i386 (also ld -r for partial scripts) and ld.lld with every referenced "
